@@ -70,7 +70,11 @@ Definition is_open (T : option N) (tr : trace) (a b s : N) : bool :=
    (A call carrying a REPLY_SERIAL is treated as a reply first and can then still be refused by the duplicate / limit test
    AFTER the table was updated; see C09_no_reply_refuted in Props/C09.v, finding F7b.  Before the fix for F7 messages with
    unix fds had to be excluded as well.) *)
-Definition plain_msg (m : msg) : bool := negb (is_call m) || (m_rserial m =? 0).
+Definition auto_starts (m : msg) : bool :=
+  match m_dest m with DName n => activatable n && negb (m_noauto m) | DUnique _ => false end.
+(* ... and auto-start messages to activatable names are excluded as well: a held message is passed on by a later
+   RequestName step, which the ledger (defined on send steps) does not follow; C05_fifo_held covers hold and release *)
+Definition plain_msg (m : msg) : bool := (negb (is_call m) || (m_rserial m =? 0)) && negb (auto_starts m).
 Definition plain_event (e : event) : bool := match e with ESend _ m => plain_msg m | _ => true end.
 Definition plain (h : list event) : bool := forallb plain_event h.
 
@@ -156,6 +160,7 @@ Definition err_eqb (x y : err) : bool :=
      6  a call was passed on although its sender already had max_replies open calls, not counting the one this very
         message answers (C09 limit)
      7  destination has no owner but the message was not answered by NameHasNoOwner / ServiceUnknown (C05)
+    10  messages held for an activation were not released to the new owner exactly once each and in arrival order per sender (C05)
      8  a message to an existing owner was refused without one of the reasons the documentation gives: unrequested reply
         under the restrictive policy (AccessDenied), fds (NotSupported), same serial still outstanding towards that
         callee (AccessDenied), max_replies_per_connection open calls or a full outgoing queue of the recipient (LimitsExceeded)
@@ -166,7 +171,32 @@ Fixpoint has_dup (l : list N) : bool :=
 (* [eaves]: the connections that hold an eavesdrop match rule matching this message (from the shared matcher of Routing.v;
    match-rule semantics are property C07) *)
 (* [full]: the addressed recipient is stalled with its queue at the bus over max_outgoing_bytes (harness-controlled fact) *)
-Definition oracle_step (cf : cfg) (tr : trace) (owner : option N) (eaves : list N) (full : bool) (e : event) (o : out) : N :=
+(* is l1 a subsequence of l2 *)
+Fixpoint subseqb (l1 l2 : list (N * N)) : bool :=
+  match l1, l2 with
+  | [], _ => true
+  | _ :: _, [] => false
+  | x :: l1', y :: l2' => if pair_eqb x y then subseqb l1' l2' else subseqb l1 l2'
+  end.
+
+(* release of the messages held for an activation: [held] = (sender, message) entries in arrival order, [w] = new primary owner.
+   Per sender the forwards reach w in arrival order, nothing is forwarded twice or from nowhere, and every held message is
+   either forwarded or answered with an error to its sender. *)
+Definition release_ok (held : list (N * msg)) (w : N) (o : out) : bool :=
+  let keys := map (fun x => (fst x, m_token (snd x))) held in
+  let fwd := flat_map (fun x => match snd x with OFwd f m' => if fst x =? w then [(f, m_token m')] else [] | _ => [] end) o in
+  forallb (fun k => existsb (pair_eqb k) keys) fwd &&
+  forallb (fun k => Nat.leb (count_pair k fwd) 1) fwd &&
+  forallb (fun a => subseqb (filter (fun k => fst k =? a) fwd) (filter (fun k => fst k =? a) keys)) (map fst keys) &&
+  forallb (fun x => existsb (pair_eqb (fst x, m_token (snd x))) fwd ||
+                    existsb (fun y => match snd y with OErr _ rs => (fst y =? fst x) && (rs =? m_serial (snd x)) | _ => false end) o) held &&
+  negb (existsb (fun x => match snd x with OFwd _ _ => negb (fst x =? w) | _ => false end) o).
+
+(* [holdok]: the destination is an unowned name with a service file and the message may auto-start it (then it is held: no
+   output, unless the activation's first-pass policy check refuses it);
+   [held]: what is held for the name a RequestName step acquires (owner = primary owner after the step) *)
+Definition oracle_step (cf : cfg) (tr : trace) (owner : option N) (eaves : list N) (full : bool) (holdok : bool) (held : list (N * msg))
+           (e : event) (o : out) : N :=
   let T := reply_timeout cf in
   match e with
   | ESend c m =>
@@ -189,7 +219,8 @@ Definition oracle_step (cf : cfg) (tr : trace) (owner : option N) (eaves : list 
       | [(r, OErr x rs)] =>
           if negb ((r =? c) && (rs =? m_serial m)) then 2
           else match owner with
-               | None => if err_eqb x (if m_noauto m then ENameHasNoOwner else EServiceUnknown) then 0 else 7
+               | None => if holdok then (if err_eqb x EAccessDenied && negb (can_send cf m false) then 0 else 7)   (* first-pass policy check of the activation *)
+                         else if err_eqb x (if m_noauto m then ENameHasNoOwner else EServiceUnknown) then 0 else 7
                | Some w =>
                    let wants_slot := is_call m && negb (m_noreply m) in
                    let unrequested := restrictive cf && negb (m_rserial m =? 0) && negb (is_open T tr w c (m_rserial m)) in
@@ -202,7 +233,13 @@ Definition oracle_step (cf : cfg) (tr : trace) (owner : option N) (eaves : list 
                    else if err_eqb x ELimitsExceeded then (if full || wants_slot && (max_replies cf <=? N.of_nat others) then 0 else 8)
                    else 8
                end
+      | [] => if holdok && can_send cf m false then 0 else 2
       | _ => 2
+      end
+  | ERequestName c sr _ _ _ _ =>
+      match held, owner with
+      | [], _ | _, None => if existsb (fun x => match snd x with ODrv _ _ => false | _ => true end) o then 2 else 0
+      | _, Some w => if release_ok held w o then 0 else 10
       end
   | EDisconnect _ | ETick _ =>
       if negb (Nat.eqb (length (noreplies o)) (length o)) then 4
@@ -228,3 +265,32 @@ Definition errors_in (tr : trace) (a s : N) : nat := length (filter (err_is a s)
 (* how many messages with serial s connection a wrote in history h *)
 Definition sends_with_serial (h : list event) (a s : N) : nat :=
   length (filter (fun e => match e with ESend c m => (c =? a) && (m_serial m =? s) | _ => false end) h).
+
+(* histories in which no message waits for a service to start (no auto-start message to an activatable name) *)
+Definition noauto (h : list event) : bool :=
+  forallb (fun e => match e with ESend _ m => negb (auto_starts m) | _ => true end) h.
+
+(* ------------------------------------------------------------ FIFO through hold and release (C05) *)
+Definition dest_eqb (x y : dest) : bool :=
+  match x, y with DUnique a, DUnique b => a =? b | DName a, DName b => a =? b | _, _ => false end.
+
+(* what a wrote to destination d, oldest first *)
+Fixpoint written (tr : trace) (a : N) (d : dest) : list msg :=
+  match tr with
+  | [] => []
+  | (ESend c m, _) :: tr' => written tr' a d ++ (if (c =? a) && dest_eqb (m_dest m) d then [m] else [])
+  | _ :: tr' => written tr' a d
+  end.
+
+(* a's messages to destination d that b reads (as addressed recipient), in the order b reads them -- whichever step passed
+   them on: the send itself, or the RequestName that ended an activation *)
+Definition arrivals_in (o : out) (a : N) (d : dest) (b : N) : list msg :=
+  flat_map (fun x => match snd x with OFwd f m => if (fst x =? b) && (f =? a) && dest_eqb (m_dest m) d then [m] else [] | _ => [] end) o.
+Fixpoint arrived (tr : trace) (a : N) (d : dest) (b : N) : list msg :=
+  match tr with [] => [] | (_, o) :: tr' => arrived tr' a d b ++ arrivals_in o a d b end.
+
+(* subsequence: same relative order *)
+Inductive Sub {A} : list A -> list A -> Prop :=
+| Sub_nil : forall l, Sub [] l
+| Sub_keep : forall x l1 l2, Sub l1 l2 -> Sub (x :: l1) (x :: l2)
+| Sub_skip : forall x l1 l2, Sub l1 l2 -> Sub l1 (x :: l2).
